@@ -97,7 +97,19 @@ static void do_start(int op)
   if (op == OP_START_FAILING) vk_script("");
   int r = hx_start(P, argv, o);
   if (life != L_NS) { expect(op, r, r == REPROC_EINVAL, "a started handle must reject start"); return; }
-  if (op == OP_START_INVALID) { expect(op, r, r == REPROC_EINVAL, "invalid options must be rejected"); return; }
+  if (op == OP_START_INVALID) {
+    expect(op, r, r == REPROC_EINVAL, "invalid options must be rejected");
+    /* a second invalid form: start-up input while a shorthand sends stdin elsewhere (nothing names stdin's type explicitly) */
+    static const uint8_t some[2] = { 'a', 'b' };
+    reproc_options o2;
+    memset(&o2, 0, sizeof o2);
+    o2.redirect.parent = true;
+    o2.input.data = some;
+    o2.input.size = 2;
+    int r2 = hx_start(P, argv, o2);
+    expect(op, r2, r2 == REPROC_EINVAL, "start-up input with a stdin that is not a pipe must be rejected as invalid");
+    return;
+  }
   if (op == OP_START_FAILING) { expect(op, r, r == -ENOENT, "the program does not exist"); return; }
   expect(op, r, r > 0, "a valid start on a fresh handle must succeed");
   if (r > 0) after_start_ok();
